@@ -67,10 +67,11 @@ func (p *c27producer) Close() error                                    { return 
 func runC27(c *ev.Ctx) {
 	c.Rule = "random sequences of 40 open/close/drop operations over 3 names on cachedproducer.Wrap and cachedproducer.WrapAll over a counting producer whose OpenDB is made to fail for one in five first opens (the error must come through and leave the count untouched) and whose Close is made to fail for one in five last closes (the error comes through, the store counts as closed); model = per-name reference count and a 'drop allowed since the last open' flag. " +
 		"Oracle after every operation: a re-open while open returns the identical store and does not reach the underlying producer; the underlying Close runs exactly when the count returns to zero and never otherwise; a Close with count zero returns an error; the underlying Drop runs at most once between two opens. " +
-		"Plus overlapping drops: the underlying Drop of the harness store blocks on a gate; while the first Drop is inside it, 1-3 further Drop calls are started (same or another handle); after the gate opens the underlying Drop must have run exactly once. " +
+		"Plus one name opened 255..65537 times and closed as often (same store, one underlying open, one underlying close at the very last close, then an error). Plus overlapping drops: the underlying Drop of the harness store blocks on a gate; while the first Drop is inside it, 1-3 further Drop calls are started (same or another handle); after the gate opens the underlying Drop must have run exactly once. " +
 		"non-trivial = distinct sequences in which a name was opened >=3 times concurrently, fully closed, closed once more (error expected), re-opened, and dropped twice"
 	c.Assumptions = []string{"handles are used while their generation is open; the extra Close is issued through the last handle of the name"}
 	c.Parallel(c.Pick(48, 480), 0, func(i int) { c27OverlappingDrops(c, i) })
+	c.Parallel(22, 0, func(i int) { c27ManyOpens(c, i) })
 	n := c.Pick(20000, 500000)
 	c.Parallel(n, 0, func(i int) {
 		r := c.Rand("seq", i)
@@ -339,4 +340,63 @@ func c27OverlappingDrops(c *ev.Ctx, i int) {
 	}
 	c.Count("overlapping_drop_scenarios", 1)
 	c.Nontrivial(ev.Hash("overlap", which, nDrops, i%4 >= 2))
+}
+
+// c27ManyOpens: one name opened hundreds of times (around the sizes where a narrow counter wraps), then closed as often:
+// every open returns the same store without reaching the underlying producer again, every close but the last is silent,
+// the last one closes the underlying store - once - and one more close is an error.
+func c27ManyOpens(c *ev.Ctx, i int) {
+	n := []int{255, 256, 257, 300, 511, 512, 513, 1000, 65535, 65536, 65537}[i%11]
+	under := &c27producer{}
+	var open func(string) (kvdb.Store, error)
+	which := "Wrap"
+	if i%2 == 0 {
+		open = cachedproducer.Wrap(under).OpenDB
+	} else {
+		which = "WrapAll"
+		open = cachedproducer.WrapAll(under).OpenDB
+	}
+	fail := func(why string) {
+		c.Violation("underlying-close-count-wrong", map[string]interface{}{"case": i, "wrapper": which, "opens_of_one_name": n, "why": why})
+	}
+	var first kvdb.Store
+	for k := 0; k < n; k++ {
+		s, err := open("a")
+		if err != nil {
+			fail(fmt.Sprintf("open #%d fails: %v", k+1, err))
+			return
+		}
+		if k == 0 {
+			first = s
+		} else if s != first {
+			c.Violation("reopen-returns-different-store", map[string]interface{}{"case": i, "wrapper": which, "open_number": k + 1})
+			return
+		}
+	}
+	if under.opens != 1 {
+		fail(fmt.Sprintf("%d opens reached the underlying producer %d times", n, under.opens))
+		return
+	}
+	for k := 0; k < n; k++ {
+		err := first.Close()
+		want := 0
+		if k == n-1 {
+			want = 1
+		}
+		if err != nil {
+			fail(fmt.Sprintf("close #%d of %d reports %v", k+1, n, err))
+			return
+		}
+		if under.closeCalls != want {
+			fail(fmt.Sprintf("after close #%d of %d the underlying Close ran %d times, want %d", k+1, n, under.closeCalls, want))
+			return
+		}
+	}
+	if err := first.Close(); err == nil {
+		c.Violation("extra-close-not-reported", map[string]interface{}{"case": i, "wrapper": which, "opens_of_one_name": n})
+		return
+	}
+	c.Eval(1)
+	c.Count("names_opened_hundreds_of_times", 1)
+	c.Nontrivial(ev.Hash("many", which, n))
 }
